@@ -14,19 +14,28 @@ import (
 // checks: every pair exactly once, ascending key order, exact scores.
 func goStringOracle(gs string, q map[[2]byte]int) string {
 	src := "package p\nconst Gap = 255\ntype SubstitutionMatrix map[[2]byte]float64\nvar m = " + gs
+	return goSourceOracle(src, q)
+}
+
+// goSourceOracle finds the (single) SubstitutionMatrix composite literal in a Go
+// source file and compares the matrix it denotes with q (quarter units).
+func goSourceOracle(src string, q map[[2]byte]int) string {
 	fset := token.NewFileSet()
 	f, err := parser.ParseFile(fset, "m.go", src, 0)
 	if err != nil {
-		return "GoString output is not valid Go: " + err.Error()
+		return "generated text is not valid Go: " + err.Error()
 	}
 	var lit *ast.CompositeLit
-	for _, d := range f.Decls {
-		if g, ok := d.(*ast.GenDecl); ok && g.Tok == token.VAR {
-			lit, _ = g.Specs[0].(*ast.ValueSpec).Values[0].(*ast.CompositeLit)
+	ast.Inspect(f, func(n ast.Node) bool {
+		if cl, ok := n.(*ast.CompositeLit); ok && lit == nil {
+			if id, ok := cl.Type.(*ast.Ident); ok && id.Name == "SubstitutionMatrix" {
+				lit = cl
+			}
 		}
-	}
+		return true
+	})
 	if lit == nil {
-		return "GoString output is not a composite literal"
+		return "no SubstitutionMatrix composite literal in the generated text"
 	}
 	evalByte := func(e ast.Expr) (byte, bool) {
 		switch x := e.(type) {
